@@ -193,7 +193,7 @@ func (k *Kernel) Run() {
 				idle = 0
 			}
 			lastSteps, lastCPU = steps, cpu
-			if idle >= 4 { // 2 s without a scheduling event and without CPU use
+			if idle >= 10 { // 5 s without a scheduling event and without CPU use
 				k.Stuck = true
 				k.aborting = true
 				k.cur = nil
